@@ -86,6 +86,10 @@ pub const POOL: &[QueryShape] = &[
     QueryShape { text: "((call function: (identifier) @_callee) @call (#not-eq? @_callee \"f\"))", caps: &[c("_callee", "", &["identifier"]), c("call", "", &["call"])], root_kinds: &["call"], total: false, exec_safe: true },
     QueryShape { text: "(binary_operator left: (_) @parts right: (_) @parts) @parts", caps: &[c("parts", "+", &[])], root_kinds: &["binary_operator"], total: true, exec_safe: true },
     QueryShape { text: "(attribute object: (_) @chain) @chain", caps: &[c("chain", "+", &[])], root_kinds: &["attribute"], total: true, exec_safe: true },
+    // patterns that do not begin with a bracket: a bare wildcard, an anonymous token, a field name
+    QueryShape { text: "_ @any_node", caps: &[c("any_node", "", &[])], root_kinds: &[], total: false, exec_safe: true },
+    QueryShape { text: "\"=\" @eq_sign", caps: &[c("eq_sign", "", &["="])], root_kinds: &["="], total: false, exec_safe: true },
+    QueryShape { text: "left: (identifier) @lhs_id", caps: &[c("lhs_id", "", &["identifier"])], root_kinds: &["identifier"], total: false, exec_safe: true },
     QueryShape { text: "(module (expression_statement) @stmt_a (expression_statement) @stmt_b)", caps: &[c("stmt_a", "", &["expression_statement"]), c("stmt_b", "", &["expression_statement"])], root_kinds: &["module"], total: false, exec_safe: true },
 ];
 
